@@ -11,7 +11,6 @@ RULE = ('lap scripts over multisets of NON-EMPTY intervals (duplicates, nested, 
         'pair or an interval containing another; distinct by case text')
 UNIQUE_NOTE = 'merge_canon + canon_unique: the merged (start,stop) list is unique; find/count/seek/cov are functions of the stored set'
 EXHAUSTIVE = {}
-CROSSCHECK = True      # thorough tier: a sample is re-evaluated inside Coq against the extracted runner
 
 
 def nontrivial(ivs):
